@@ -135,8 +135,11 @@ def judge(ctx, lines, by_id):
         hdr = json.loads(seg[0])
         if r.reason.startswith("harness:") or r.reason == "unconsumed":
             raise ToolError("the recorded trace is malformed (%s) at %s" % (r.reason, seg[idx - 1][:300]))
+        panics = [json.loads(x).get("msg", "") for x in seg[:idx] if '"e":"panic"' in x]
         for sig in ru.classify(seg, idx, r.reason):
-            violations.append({"sig": sig, "what": "%s (scenario %s from %s) at %s" % (r.reason, hdr.get("id"), hdr.get("src"), seg[idx - 1][:300]),
+            violations.append({"sig": sig, "what": "%s (scenario %s from %s on %s)%s at %s" % (
+                                   r.reason, hdr.get("id"), hdr.get("src"), hdr.get("transport"),
+                                   " after a panic of the code under test: %s" % panics[0][:160] if panics else "", seg[idx - 1][:300]),
                                "replay_obj": {"property": "C13", "reason": r.reason, "signature": sig,
                                               "scenario": by_id.get(hdr.get("id")),
                                               "segment": [json.loads(x) for x in seg[:idx]]}})
@@ -254,6 +257,15 @@ def selftest(ctx):
         found = (not r["ok"]) and "Invariant MonOK is violated" in r["out"] and "response reported sent but lost" in r["out"]
         log("selftest model: %s -> %s" % (what, "MonOK violated: response reported sent but lost (expected)" if found else "NOT violated"))
         ok &= found
+    # on_connection_closed filters pending_outbound with the inverted predicate (seeded change C13d): with two peers
+    # the healthy peer's opening request loses its context
+    r = tlc_mc(ctx, "ReqRespMC.tla", write_cfg(ctx, "negf.cfg", dict(BASEC, Peers="<- TwoPeers", MaxReq=2, Bugs="<- InvFilter"),
+                                               ["SPECIFICATION Spec", "INVARIANTS MonOK QuiesceStrict", "VIEW View", "CHECK_DEADLOCK FALSE"] + MV),
+               workers=4, timeout=600, expect_violation=True)
+    found = (not r["ok"]) and "is violated" in r["out"] and ("pending outbound request does not exist" in r["out"] or "QuiesceStrict" in r["out"])
+    log("selftest model: pending_outbound filtered by the wrong peer when a connection closes (2 peers) -> %s" %
+        ("violated (expected)" if found else "NOT violated"))
+    ok &= found
     # responder side: the bound applied per remote peer instead of globally must break the monitor's bound rule
     r = tlc_mc(ctx, "ReqRespBoundMC.tla", write_cfg(ctx, "negb.cfg", dict(Requesters={1, 2}, K=2, Bound=1, PerPeer=True), B_LINES),
                workers=4, timeout=600, expect_violation=True)
